@@ -75,8 +75,9 @@ def param_kind(cls_name, param):
 
 INVALID = {
     'size-pix': ['zero', 'neg', 'nan', 'inf', '-inf', 'str', 'none', 'list', 'arr1d', 'q-angle', 'q-length', 'complex', 'neg-int', 'tuple'],
-    'size-sky': ['zero-q', 'neg-q', 'nan-q', 'inf-q', 'plain-float', 'str', 'none', 'q-length', 'q-arr1d', 'q-dimensionless', 'list'],
-    'angle': ['plain-float', 'str', 'none', 'q-length', 'q-arr1d', 'q-dimensionless', 'list', 'q-time'],
+    'size-sky': ['zero-q', 'neg-q', 'nan-q', 'inf-q', 'plain-float', 'str', 'none', 'q-length', 'q-arr1d', 'q-dimensionless', 'list', 'q-solid-angle',
+                 'q-deg2', 'q-angular-speed'],
+    'angle': ['plain-float', 'str', 'none', 'q-length', 'q-arr1d', 'q-dimensionless', 'list', 'q-time', 'q-solid-angle', 'q-deg2', 'q-angular-speed'],
     'pix-scalar': ['pix-1d', 'pix-2d', 'sky-scalar', 'tuple', 'none', 'str', 'plain-float', 'list'],
     'pix-1d': ['pix-scalar', 'pix-2d', 'sky-1d', 'tuple', 'none', 'list', 'arr2d'],
     'sky-scalar': ['sky-1d', 'pix-scalar', 'tuple', 'none', 'str', 'q-angle'],
@@ -97,6 +98,7 @@ def make_value(vid, prng):
         'list': [1.0, 2.0], 'tuple': (1.0, 2.0), 'arr1d': np.array([1.0, 2.0]), 'arr0d': np.array(3.0), 'arr2d': np.ones((2, 2)),
         'complex': 1 + 2j, 'plain-float': 2.5,
         'q-angle': 3 * u.deg, 'q-length': 3 * u.m, 'q-time': 3 * u.s, 'q-dimensionless': 3 * u.dimensionless_unscaled,
+        'q-solid-angle': 2 * u.sr, 'q-deg2': 3 * u.deg ** 2, 'q-angular-speed': 3 * u.deg / u.s,
         'q-arr1d': [1, 2] * u.deg, 'zero-q': 0 * u.arcsec, 'neg-q': -2 * u.arcsec, 'nan-q': np.nan * u.deg, 'inf-q': np.inf * u.deg,
         'pix-scalar': PixCoord(1.5, 2.5), 'pix-1d': PixCoord([1.0, 2, 3], [3.0, 4, 6]), 'pix-2d': PixCoord(np.ones((2, 2)), np.ones((2, 2))),
         'sky-scalar': SkyCoord(10, 20, unit='deg'), 'sky-1d': SkyCoord([10, 11, 12], [20, 21, 20], unit='deg'),
@@ -368,7 +370,9 @@ def run_history(case, obs, prng):
                 obs.check(dict(got) == good and type(got).__name__ == ('RegionMeta' if p == 'meta' else 'RegionVisual'), 'accepted-value-not-read-back',
                           f'{cname}.{p} = {good} reads back {dict(got)} ({type(got).__name__})', 'assign-valid-accepted')
             else:
-                bad = prng.choice([{prng.choice([k for k in BAD_KEYS if isinstance(k, str)]): 1}, 'str', 3, [('label', 'x')], None])
+                import regions as _r
+                wrong_kind = _r.RegionVisual({'color': 'red', 'linewidth': 2}) if p == 'meta' else _r.RegionMeta({'label': 'x', 'include': False})
+                bad = prng.choice([{prng.choice([k for k in BAD_KEYS if isinstance(k, str)]): 1}, 'str', 3, [('label', 'x')], None, wrong_kind, wrong_kind])
                 try:
                     setattr(region, p, bad)
                     obs.violation('assign-accepts-invalid-meta', f'{cname}.{p} = {bad!r} accepted')
